@@ -944,8 +944,67 @@ def emit_rust(repo, verif_root, ops, smithy, op_names, trait_methods, shapes, ho
         R.append(f'    OpSpec {{ name: "{name}", method: "{s["method"]}", kind: "{s["kind"]}", literal_path: "{s["literal_path"] or ""}", lits: &[{lits}], exposed: {str(name in ops).lower()}, members: &[{mem}], payload_doc: r##"{doc}"## }},')
     R.append("];")
     R.append("")
+    # --- output members the recording backend sets in "rich output" mode, and what a client must then see
+    out_types = {m[2] for m in trait_methods}
+    out_fields = parse_struct_fields(repo, sorted(out_types))
+    out_sets, out_expect = {}, {}
+    TS = "s3s::dto::Timestamp::from(time::OffsetDateTime::from_unix_timestamp(1_445_412_480).unwrap())"
+    for meth, ity, oty in trait_methods:
+        opn = oty[:-len("Output")]
+        if opn not in smithy:
+            continue
+        fmap = {norm_member(fn): (fn, ft) for fn, ft in out_fields[oty]}
+        sets, exp = [], []
+        for m in smithy[opn]["outputs"]:
+            key = norm_member(m["snake"])
+            if key not in fmap:
+                continue
+            fn, ft = fmap[key]
+            opt = ft.startswith("Option<")
+            wrap = (lambda e: f"Some({e})") if opt else (lambda e: e)
+            if m["loc"] == "header":
+                w = m["wire"]
+                if w in ("content-length",):
+                    continue  # set by the body machinery
+                if m["target"] == "ContentType":
+                    sets.append(f'out.{fn} = "text/plain".parse().ok();')
+                    exp.append((m["snake"], "text/plain"))
+                elif m["kind"] in ("string", "enum"):
+                    v = "v-" + w
+                    expr = 'String::from("' + v + '").into()'
+                    sets.append(f"out.{fn} = {wrap(expr)};")
+                    exp.append((m["snake"], v))
+                elif m["kind"] == "integer":
+                    sets.append(f"out.{fn} = {wrap('7')};")
+                    exp.append((m["snake"], "7"))
+                elif m["kind"] == "long":
+                    sets.append(f"out.{fn} = {wrap('9')};")
+                    exp.append((m["snake"], "9"))
+                elif m["kind"] == "boolean":
+                    sets.append(f"out.{fn} = {wrap('true')};")
+                    exp.append((m["snake"], "true"))
+                elif m["kind"] == "timestamp":
+                    sets.append(f"out.{fn} = {wrap(TS)};")
+                    if m["fmt"] == "http-date":
+                        exp.append((m["snake"], "Wed, 21 Oct 2015 07:28:00 GMT"))
+                    elif m["fmt"] == "date-time":
+                        exp.append((m["snake"], "2015-10-21T07:28:00Z|2015-10-21T07:28:00.000Z"))
+                    else:
+                        exp.append((m["snake"], "1445412480"))
+            elif m["loc"] == "prefix":
+                expr = '[(String::from("color"), String::from("blue"))].into_iter().collect()'
+                sets.append(f"out.{fn} = {wrap(expr)};")
+                exp.append((m["snake"] + ".color", "blue"))
+        out_sets[meth] = sets
+        out_expect[opn] = exp
+    R.append("/// what a client must see for the members the recording backend sets in rich-output mode: (operation, [(member, text alternatives)])")
+    R.append("pub static OUT_EXPECT: &[(&str, &[(&str, &str)])] = &[")
+    for opn in sorted(out_expect):
+        R.append(f'    ("{opn}", &[' + ", ".join(f'("{a}", "{b}")' for a, b in out_expect[opn]) + "]),")
+    R.append("];")
+    R.append("")
     R.append("/// Recording backend: every method records its name and the Debug rendering of every input field,")
-    R.append("/// then answers with the default output.")
+    R.append("/// then answers with the default output (or, in rich-output mode, with every header-bound member set).")
     R.append("macro_rules! impl_recorder {")
     R.append("    ($ty:ty) => {")
     R.append("        #[async_trait::async_trait]")
@@ -957,7 +1016,15 @@ def emit_rust(repo, verif_root, ops, smithy, op_names, trait_methods, shapes, ho
         for fname, fty in flds:
             R.append(f'                fields.push(("{fname}", format!("{{:?}}", req.input.{fname})));')
         R.append(f'                self.record("{meth}", fields, &req.credentials, &req.region, &req.service);')
-        R.append(f"                self.respond(\"{meth}\", req.input)")
+        R.append(f"                #[allow(unused_mut)]")
+        R.append(f"                let mut out = s3s::dto::{oty}::default();")
+        sets = out_sets.get(meth, [])
+        if sets:
+            R.append("                if self.rich_output() {")
+            for line in sets:
+                R.append("                    " + line)
+            R.append("                }")
+        R.append(f"                self.finish(\"{meth}\", out)")
         R.append("            }")
     R.append("        }")
     R.append("    };")
